@@ -364,7 +364,7 @@ def guards(summary):
     g = []
     info = summary["info"]
     for k in ("cache_states_entered", "transitions_from_noninitial", "deletes_applied", "estimator_transitions", "estimator_states",
-              "basis_write_attempts", "cache_state_changed_by_op"):
+              "basis_write_attempts", "cache_state_changed_by_op", "mutator_calls"):
         if info.get(k, 0) < 1:
             g.append("never seen: " + k)
     if info.get("cache_states_entered", 0) < 512:
@@ -526,6 +526,54 @@ def ex_immut(p, seed):
             if not all(np.array_equal(a, b) for a, b in zip(before, after)):
                 out.fail("matrix_basis:modifiable:%s:%s" % (bname, wname), "%s basis %s changed by %s" % (systag, bname, wname))
                 break
+    # the in-place mutators of an object (set_zero, set_mode_proj_order) must not change values obtained or derived earlier
+    if systag in ("Q1", "Q3"):
+        pool = build_pool(systag, seed)
+        for k in ("s", "p", "g", "m", "su", "gu"):
+            for flag in (True, False):
+                base_obj = pool[k]
+                ok, obj = A.call(base_obj.generate_from_var, base_obj.to_var(), is_physicality_required=False) if flag == base_obj.on_para_eq_constraint else \
+                    A.call(lambda: type(base_obj)(base_obj.composite_system, base_obj._copy() if k not in ("m",) else base_obj._copy()[0],
+                                                   is_physicality_required=False, on_para_eq_constraint=flag))
+                if not ok:
+                    raise HarnessError("cannot build pool variant %s flag=%s: %s" % (k, flag, A.fmt_exc(obj)))
+                handed = {"stacked": obj.to_stacked_vector(), "var": obj.to_var()}
+                var_in = np.array(obj.to_var(), dtype=np.float64).copy()
+                derived = {"copy": obj.copy(), "from_var": obj.generate_from_var(var_in), "proj_eq": obj.calc_proj_eq_constraint()}
+                snap_h = {n: np.array(a, dtype=np.float64).copy() for n, a in handed.items()}
+                snap_v = var_in.copy()
+                snap_d = {n: np.array(o.to_stacked_vector(), dtype=np.float64).copy() for n, o in derived.items()}
+                for mut, fn in (("set_zero", lambda o: o.set_zero()), ("set_mode_proj_order", lambda o: o.set_mode_proj_order("ineq_eq"))):
+                    target = obj if mut == "set_mode_proj_order" else obj
+                    okm, r = A.call(fn, target)
+                    out.ops += 1
+                    out.count("mutator_calls")
+                    if not okm:
+                        out.fail("mutator:%s:raises:%s" % (mut, k), A.fmt_exc(r))
+                        continue
+                    for n, a in handed.items():
+                        if not np.array_equal(np.asarray(a, dtype=np.float64), snap_h[n]):
+                            out.fail("mutator:%s:changes-array-handed-out-earlier:%s:%s:flag=%s" % (mut, n, type(obj).__name__, flag),
+                                     "%s.%s() changed the array returned earlier by to_%s()" % (type(obj).__name__, mut, "stacked_vector" if n == "stacked" else "var"))
+                    if not np.array_equal(var_in, snap_v):
+                        out.fail("mutator:%s:changes-callers-var:%s:flag=%s" % (mut, type(obj).__name__, flag), "var array given to generate_from_var earlier was changed")
+                    for n, o in derived.items():
+                        if not np.array_equal(np.asarray(o.to_stacked_vector(), dtype=np.float64), snap_d[n]):
+                            out.fail("mutator:%s:changes-derived-object:%s:%s:flag=%s" % (mut, n, type(obj).__name__, flag),
+                                     "object derived earlier by %s changed when the source was mutated" % n)
+                # and the other direction: mutating a DERIVED object must not reach back into the source / the caller's var
+                src_snap = np.array(pool[k].to_stacked_vector(), dtype=np.float64).copy()
+                var2 = np.array(pool[k].to_var(), dtype=np.float64).copy()
+                keep2 = var2.copy()
+                okd, d2 = A.call(pool[k].generate_from_var, var2, is_physicality_required=False)
+                if okd:
+                    d2.set_zero()
+                    out.ops += 1
+                    if not np.array_equal(var2, keep2):
+                        out.fail("mutator:set_zero:changes-callers-var-of-generate_from_var:%s" % type(obj).__name__,
+                                 "set_zero() on an object generated from var zeroed the caller's var array")
+                    if not np.array_equal(np.asarray(pool[k].to_stacked_vector(), dtype=np.float64), src_snap):
+                        out.fail("mutator:set_zero:changes-source-object:%s" % type(obj).__name__, "set_zero() on a derived object changed its source")
     # the source list handed to MatrixBasis is not aliased
     src = [np.array(R.dense(x)) for x in c.comp_basis()]
     mbs = mb.MatrixBasis(src)
